@@ -27,14 +27,14 @@ const c42MaxParts = 24
 // c42PickKind draws the backend. LocalBlobstore sleeps 10 ms per Put and GitBlobstore runs
 // 10-25 git processes per manifest update, so their shares are capped.
 func c42PickKind(rt *rapid.T, label string, localPct, gitPct int) string {
-	n := rapid.IntRange(0, 99).Draw(rt, label)
+	n := c42Pct(rt, label)
 	switch {
-	case n < localPct:
-		return c42Local
-	case n < localPct+gitPct:
-		return c42Git
-	default:
+	case n < 100-localPct-gitPct:
 		return c42InMem
+	case n < 100-gitPct:
+		return c42Local
+	default:
+		return c42Git
 	}
 }
 
